@@ -717,3 +717,33 @@ func (s *Solver) race() Verdict {
 	}(len(cmds) - got)
 	return verdict
 }
+
+// OneShot decides a complete script with a fresh process of the given solver.
+func OneShot(kind, text string, timeoutMs int) Verdict {
+	var cmd *exec.Cmd
+	switch kind {
+	case "cvc5":
+		cmd = exec.Command("cvc5", "--lang=smt2", "--strings-exp", "-q", fmt.Sprintf("--tlimit=%d", timeoutMs))
+		text = "(set-logic ALL)\n" + text
+	case "z3-new":
+		cmd = exec.Command("z3-new", "-in", "-smt2", fmt.Sprintf("-t:%d", timeoutMs))
+	default:
+		cmd = exec.Command("z3", "-in", "-smt2", fmt.Sprintf("-t:%d", timeoutMs))
+	}
+	cmd.Stdin = strings.NewReader(text + "(check-sat)\n")
+	out, _ := cmd.Output()
+	o := strings.TrimSpace(string(out))
+	if strings.Contains(o, "(error") {
+		return Unknown
+	}
+	if i := strings.IndexByte(o, '\n'); i >= 0 {
+		o = strings.TrimSpace(o[:i])
+	}
+	switch o {
+	case "sat":
+		return Sat
+	case "unsat":
+		return Unsat
+	}
+	return Unknown
+}
